@@ -101,6 +101,7 @@ EventOK(e) ==
             [] e.what = "vshare" -> ~Dec(PopFieldVec(e.leaf, IF e.round = 1 THEN 3 ELSE 1), e.bytes)
             [] e.what = "msg" -> ~Dec(PopMsg(e.leaf, e.round), e.bytes)
             [] OTHER -> FALSE)
+    [] e.ev = "aggparam" -> e.ok       \* only refusals are logged: every parameter the driver builds is admissible (1 <= length <= bits <= 2^16)
     [] e.ev = "mismatch" -> ~e.ok      \* state / message variants that do not belong together are refused
     [] e.ev = "result" ->     \* exact prefix counts
          e.counts = [i \in 1..Len(e.prefixes) |-> Cardinality({k \in 1..Len(e.inputs) : IsPrefixOf(e.prefixes[i], e.inputs[k])})]
